@@ -2,12 +2,12 @@ package ksim
 
 import (
 	"container/heap"
-	"sigs.k8s.io/controller-runtime/pkg/client"
-	"strings"
-	"k8s.io/apimachinery/pkg/api/meta"
 	"fmt"
+	"k8s.io/apimachinery/pkg/api/meta"
 	"runtime/debug"
+	"sigs.k8s.io/controller-runtime/pkg/client"
 	"sort"
+	"strings"
 	"time"
 )
 
@@ -144,16 +144,16 @@ type Sim struct {
 	faultsOff   bool
 	lastFaultAt int // step of last fired fault / user action
 
-	Stats      map[string]int
-	Probes     map[string]int
-	Violations []Violation
-	Trace      []string // abstract trace for evidence / determinism hash
-	EvLog      *hashLog // full event log hash (determinism self-test)
-	Oracles    []Oracle
+	Stats         map[string]int
+	Probes        map[string]int
+	Violations    []Violation
+	Trace         []string // abstract trace for evidence / determinism hash
+	EvLog         *hashLog // full event log hash (determinism self-test)
+	Oracles       []Oracle
 	admissionHook func(actor string, old, submitted, admitted client.Object)
-	QuietHooks []func() bool // called at quiescence; return true if they produced work
-	ended      bool
-	EndReason  string
+	QuietHooks    []func() bool // called at quiescence; return true if they produced work
+	ended         bool
+	EndReason     string
 }
 
 func (s *Sim) Now() time.Time { return time.Now() }
